@@ -138,9 +138,17 @@ theorem wfProcessWorkflowEvent_ext (req) : Rel extPre (wfProcessWorkflowEvent re
   intro c
   show c.st.Ext _
   unfold wfProcessWorkflowEvent
+  dsimp only
   split
   · exact WState.Ext.refl _
-  · exact Ext.of_eq rfl rfl rfl
+  · split
+    · split
+      · exact Ext.of_eq rfl rfl rfl
+      · have hk : ∀ xs : List Staged, Rel extPre (M.forEach xs
+            fun x => logError "UnreachableJoinError" (some x.id) (some x.route)) :=
+          fun xs => Rel.forEach _ (fun x => logEntry_ext _)
+        exact WState.Ext.trans (Ext.of_eq rfl rfl rfl) ((hk _).run _)
+    · exact Ext.of_eq rfl rfl rfl
 
 theorem tkProcessWorkflowEvent_ext (i req) : Rel extPre (tkProcessWorkflowEvent i req) := by
   constructor
